@@ -733,7 +733,7 @@ func explore(shardIdx, shardCnt int) []famStat {
 	var stats []famStat
 	per := 50 * time.Second
 	if rep.Thorough() {
-		per = 200 * time.Second
+		per = 100 * time.Second
 	}
 	for _, f := range families {
 		f := f
